@@ -121,6 +121,24 @@ def attach_symbolic(grid, tag="v"):
     return g
 
 
+def attach_free(grid, tag="v"):
+    """Data container whose geometric fields are independent symbols (no relation between vertices, jacobians, normals ...):
+    an assembler contract proved on it holds for every grid_data content; the relations are the contract of the geometry code."""
+    from bempp_cl.api.grid import grid as G
+
+    ne, nv = grid.number_of_elements, grid.number_of_vertices
+    d = grid._grid_data_double
+    V = S.symarray(tag, (3, nv))
+    data = G.GridDataDouble(
+        V, grid.elements, grid.edges, grid.element_edges, S.symarray(tag + "vol", (ne,), positive=True), S.symarray(tag + "n", (ne, 3)),
+        S.symarray(tag + "J", (ne, 3, 2)), S.symarray(tag + "Ji", (ne, 3, 2)), S.symarray(tag + "diam", (ne,), positive=True),
+        S.symarray(tag + "ie", (ne,), positive=True), S.symarray(tag + "c", (ne, 3)), grid.domain_indices,
+        grid.vertex_on_boundary, d.element_neighbor_indices, d.element_neighbor_indexptr)
+    grid._numeric_grid_data_double = d
+    grid._grid_data_double = data
+    return data
+
+
 def detach(grid):
     grid._grid_data_double = grid._numeric_grid_data_double
 
